@@ -25,7 +25,7 @@ def witness_search(tier, seed):
     import itertools
     from simfile.ssc import SSCSimfile, SSCChart
     import simfile
-    vals = [None, "", "a", "x:y", "a;b", "1", ":240", "::", ":TIME=1:LEN=2"]
+    vals = [None, "", "a", "x:y", "a;b", "1", ":240", "::", ":TIME=1:LEN=2", "cr\rlf\r\nend"]
     for notes, k, v in itertools.product(["", "1", "0000\n0000"], ["CREDIT", "ATTACKS", "DISPLAYBPM", "FOO", "NOTESKIN"], vals):
         for notes_key, pos in itertools.product(("NOTES", "NOTES2"), ("last", "first")):
             ch = SSCChart()
@@ -43,6 +43,10 @@ def witness_search(tier, seed):
                 text = str(sf)
             except Exception as e:
                 return dict(input=dict(chart=items), detail=f"str() raised {type(e).__name__}: {e}")
+            for entry, auto in (("loads", simfile.loads(text)), ("load(StringIO)", simfile.load(__import__("io").StringIO(text))),
+                                ("load(lines)", simfile.load(iter(text.splitlines(keepends=True))))):
+                if type(auto) is not SSCSimfile or list(auto.items()) != list(sf.items()) or [list(c.items()) for c in auto.charts] != [list(c.items()) for c in SSCSimfile(string=text).charts]:
+                    return dict(input=dict(chart=items, entry=entry), detail=f"simfile.{entry} of the serialized text is not the simfile that SSCSimfile(string=) reads")
             back = SSCSimfile(string=text)
             exp = [(a, b) for a, b in items if a != notes_key] + [(notes_key, notes)]
             got = list(back.charts[0].items()) if back.charts else None
@@ -57,3 +61,8 @@ def witness_search(tier, seed):
 
 from pyvc.xcheck import MsdTextProbe   # noqa: E402
 THOROUGH_BOUNDED = [MsdTextProbe()]
+
+
+# supplier units (see props/suppliers.py)
+from props import suppliers as _S   # noqa: E402
+UNITS = _S.extend(UNITS, _S.loaders("ssc"))
